@@ -580,6 +580,9 @@ pub fn make_case(ctx: &ShardCtx, i: u64) -> Case {
         tick_stmt_ids: true,
         fault_permille: if r.chance(1, 4) { 40 } else { 0 },
         max_stanzas: 5,
+        // `print` is a deferred statement of its own kind in lazy mode (its arguments are
+        // evaluated in a third phase); its output goes to stderr, which shards discard
+        allow_print: r.chance(1, 2),
         ..Default::default()
     };
     let g = gen::gen_program(&mut Rng::sub(seed, "prog"), &cfg);
@@ -698,6 +701,7 @@ fn minimise(case: &Case, f: Found) -> (Case, Found) {
 }
 
 pub fn run_shard(ctx: &ShardCtx, rep: &mut Report) {
+    crate::engine::discard_stderr();
     let total: u64 = match ctx.tier {
         Tier::Quick => ctx.scaled(1400) as u64,
         Tier::Thorough => ctx.scaled(60_000) as u64,
@@ -777,10 +781,11 @@ pub fn run_shard(ctx: &ShardCtx, rep: &mut Report) {
 
 /// Replays a scenario; returns (class, detail) if the violation reproduces.
 pub fn replay(sc: &J) -> Result<Option<(String, String)>, String> {
+    crate::engine::discard_stderr();
     let case = Case::from_json(sc);
-    let k = sc["k"].as_u64().unwrap_or(0);
-    let only = if k == 0 { None } else { Some(k) };
-    let (st, f) = run_case_on_thread(&case, only)?;
+    // the whole enumeration is re-run in discovery order: a violation at poll k may depend on
+    // the cancelled runs 1..k-1 that preceded it on the same thread
+    let (st, f) = run_case_on_thread(&case, None)?;
     if !st.loaded {
         return Err("scenario program does not load".into());
     }
